@@ -14,14 +14,17 @@ Three parts:
      canonical, split and fragmented (zero-count runs) encodings.
      key:  fn=<function[:variant]> in=<input class> sym=<wrong|raised:Exc>
  (2) Encoding classes: table  class chain x read x {ok, wrong, raised:Exc}.
-     key:  enc=<class chain> read=<read> sym=<wrong|raised:Exc>
+     key:  enc=<class chain> read=<read> [in=empty] sym=<wrong|raised:Exc>
      The chain is read off the object that was actually built, e.g.
      Flipped(Transposed[cycle](Shaped(RLE))); Transposed carries the permutation class
-     (swap = involution, cycle = 3-cycle, id) because index maps through perm / inverse perm
-     coincide for involutions.
- (3) VoxelGrid: points_to_indices o indices_to_points, is_filled, volume, bounds, binvox
-     export + load in every axis order.
-     key:  vg=<check> tf=<transform class> [enc=<base encoding>] sym=<...>
+     (swap = involution, cycle = 3-cycle) because index maps through perm / inverse perm
+     coincide for involutions; RLE[uint8] carries a count dtype narrower than 64 bit; a
+     '.flip' / '.transpose' / ... suffix marks a public method that returned an eager or merged
+     object instead of a new lazy layer.  `in=empty` is part of the key only for the reads
+     that depend on the filled set (EMPTY_READS).
+ (3) VoxelGrid: points_to_indices o indices_to_points (both ways), is_filled, filled_count,
+     volume, points, bounds, binvox export + load in every axis order.
+     key:  vg=<check> tf=<transform class | plain / negscale / rotated> [enc=<base>] sym=<...>
 """
 
 from __future__ import annotations
@@ -39,12 +42,14 @@ RULE = (
     "canonical / dtype-split / fragmented RLE and BRLE with count dtypes uint8, uint16, int64; one case = "
     "(function, sequence, encoding variant, dtype, index set); trivial = length-0 sequence. "
     "encodings: enumerated + random 1-D/2-D/3-D bool and small-int arrays (size-1 axes, all-empty, all-full, "
-    "single voxel, runs > 255) x base encoding (Dense, Sparse, RLE, BRLE with uint8/uint16/int64 counts) x "
-    "view recipes (flip over every axis subset, transpose over every permutation incl. 3-cycles, reshape, "
-    "flat, built through the API and through the lazy classes, and two-view compositions) x 17 reads; one "
-    "case = (class chain, read, array, recipe); distinct = distinct digest of those. "
+    "single voxel, runs > 255) x base encoding (Dense, Sparse, RLE, BRLE with uint8 / int64 counts) x view "
+    "recipes through the public methods (flip over every axis subset, transpose over every permutation incl. "
+    "3-cycles, reshape, flat, two- and three-view compositions incl. the binvox exporter's route) x 17 reads "
+    "(index sets single / sorted / unsorted / repeated, k == ndim, list and array); one case = (class chain, "
+    "read, array, recipe, index set); distinct = distinct digest of those; trivial = size-0. "
     "voxelgrid: arrays x base encoding x transform class (identity, translation, uniform / per-axis scale, "
-    "rotation, similarity, axis mirror, point mirror, mirror+rotation, shear, affine) x check."
+    "rotation, similarity, axis mirror, two-axis flip, point mirror, mirror+rotation, shear, affine of either "
+    "orientation) x check; trivial = empty grid or identity transform."
 )
 ANCHORS = [
     "trimesh/voxel/runlength.py:dense_to_rle",
@@ -288,6 +293,10 @@ def index_sets(n, rng=None, few=False):
             out.append(("repeated_sorted", sorted(full + full[:2])))
     else:
         out.append(("repeated", [0, 0, 0]))
+    if n > 256:
+        # few low positions on a long sequence: wrapped narrow accumulators answer without running out of data
+        out.append(("unsorted", [171, 146]))
+        out.append(("sorted", [146, 171]))
     if rng is not None and n >= 2:
         k = int(rng.integers(2, min(n, 9) + 1))
         out.append(("unsorted", [int(i) for i in rng.permutation(n)[:k]]))
@@ -427,12 +436,15 @@ def check_sequence(run, runs, dnames, rng=None, level=2, only=None):
                 for kind in ("array", "list"):
                     if kind == "list" and (width != "short" or (level < 2 and icls != "repeated")):
                         continue  # list handling is independent of the count width: judged on short inputs
+                    if level < 2 and width == "short" and icls == "single":
+                        continue
                     ind = np.array(idx, dtype=np.int64) if kind == "array" else list(idx)
                     gc = "idx=%s,%s" % (kind, width)
                     run.state("rl_index_class", (kind, icls))
                     ex2 = {"dtype": dname, "variant": vname, "idx": idx, "idx_kind": kind, "dk": (kind, icls)}
                     pg = lambda g: np.asarray(g).shape == (len(idx),) and [int(x) for x in g] == exp  # noqa: E731
-                    judge(prefix + "_gather_1d", gc, lambda: fns[0](data.copy(), ind), pg, **ex2)
+                    if level >= 2 or width != "short" or icls == "repeated":
+                        judge(prefix + "_gather_1d", gc, lambda: fns[0](data.copy(), ind), pg, **ex2)
                     if level >= 2 or (icls == "repeated" and kind == "array"):
                         judge(prefix + "_gatherer_1d", gc, lambda: fns[1](ind)(data.copy()), pg, **ex2)
                     if _is_sorted(idx):
@@ -521,6 +533,11 @@ LONG_RUNS_U16 = (65535, 65536)
 def long_run_patterns(lengths):
     """canonical run lists (binary) around runs of the given lengths"""
     out = []
+    if 255 in lengths:
+        out.append([[1, 511], [0, 1], [1, 255], [0, 256], [1, 200], [0, 256], [1, 256], [0, 300]])
+        out.append([[0, 200], [1, 100], [0, 300], [1, 3]])
+        out.append([[0, 7], [1, 2], [0, 7], [1, 1], [0, 511], [1, 511], [0, 511], [1, 200]])
+        out.append([[0, 1], [1, 7], [0, 255], [1, 200]])
     for L in lengths:
         for v in (0, 1):
             w = 1 - v
@@ -708,6 +725,13 @@ def nd_index_sets(shape, rng=None):
         idx = np.column_stack(np.unravel_index(np.array(flat, dtype=np.int64), shape)).astype(np.int64)
         out.append((icls, idx))
     nd = len(shape)
+    if min(shape) >= 2 and N > nd:
+        # k == ndim points with every coordinate >= 1: a wrong index map can stay in range
+        sub = tuple(s - 1 for s in shape)
+        M = int(np.prod(sub))
+        flat = [(i * 3 + 1) % M for i in range(nd)]
+        inner = np.column_stack(np.unravel_index(np.array(flat), sub)).astype(np.int64) + 1
+        out.append(("unsorted", inner))
     if N > nd:  # k == ndim on purpose (shape-broadcast coincidences)
         flat = [(i * 5 + 1) % N for i in range(nd)]
         out.append(("unsorted" if flat != sorted(flat) else "sorted",
@@ -825,16 +849,16 @@ def read_battery(run, enc, X, recipe, rng=None, only=None, marks=""):
 
             def gv():
                 forms = [pos, np.array(pos, dtype=np.int64)] + ([pos[0]] if nd == 1 else [])
-                first = None
+                err = None
                 for i, form in enumerate(forms):
                     try:
                         r = enc.get_value(form)
                     except Exception as e:
-                        first = first or e
+                        err = e  # the last form's refusal is the one reported
                         continue
                     run.state("get_value_form_accepted", (label, ("tuple", "array", "int")[i]))
                     return r
-                raise first
+                raise err
 
             cell("get_value", gv, lambda g: np.size(g) == 1 and bool(np.asarray(g).reshape(()) == exp), sub=pos,
                  index=list(pos))
@@ -1055,7 +1079,12 @@ def enumerated_arrays():
     l1 = np.zeros(600, dtype=bool)
     l1[300:] = True
     out.append(("1d:600:half", l1))
+    out.append(("3d:3x3x3:mod3", (np.arange(27).reshape(3, 3, 3) % 3 == 1)))
+    c3 = np.ones((3, 3, 3), dtype=bool)
+    c3[0, 1, 2] = c3[2, 0, 1] = False
+    out.append(("3d:3x3x3:hollow_ends", c3))
     # small integer valued
+    out.append(("3d:2x2x2:int_full", (np.arange(8).reshape(2, 2, 2) * 5 % 3 + 1).astype(np.int64)))
     iv = (np.arange(24).reshape(2, 3, 4) * 7 % 4).astype(np.int64)
     out.append(("3d:2x3x4:int", iv))
     out.append(("1d:9:int", np.array([0, 2, 2, 0, 1, 3, 3, 3, 0], dtype=np.int64)))
@@ -1076,9 +1105,10 @@ def part_encodings(run, frac_end):
     item = 0
     arrays = enumerated_arrays()
     run.note("enc_enumerated_arrays", len(arrays))
-    deep = ("mod3", "checker", "hollow_ends", "corner1", "empty")
+    deep = {(2, 3, 4): ("mod3", "checker", "hollow_ends", "empty"), (2, 2, 2): ("mod3", "hollow_ends", "corner1", "int_full"),
+            (3, 3, 3): ("mod3", "hollow_ends"), (1, 3, 2): ("mod3",)}
     for tag, X in arrays:
-        two = X.ndim == 3 and 8 <= X.size <= 30 and tag.split(":")[-1] in deep and (run.tier != "quick" or X.shape != (2, 2, 2))
+        two = X.ndim == 3 and tag.split(":")[-1] in deep.get(X.shape, ())
         for rec in recipes_for(X, 2 if two else 1):
             item += 1
             if not run.mine(item):
@@ -1147,7 +1177,12 @@ def grid_transforms(rng):
         L = rng.normal(size=(3, 3))
         if np.linalg.cond(L) < 50 and abs(np.linalg.det(L)) > 0.05:
             break
+    if np.linalg.det(L) < 0:
+        L[0] *= -1
     out.append(("affine", M(L, t), False, False))
+    Lm = L.copy()
+    Lm[1] *= -1
+    out.append(("affine_mirror", M(Lm, t), False, False))
     return out
 
 
@@ -1351,8 +1386,8 @@ def part_voxelgrid(run, frac_end):
 
 def workload(run):
     # order: the cheap, wide tables first; budget fractions are cumulative
-    part_voxelgrid(run, 0.20)
-    part_encodings(run, 0.55)
+    part_voxelgrid(run, 0.18)
+    part_encodings(run, 0.50)
     part_runlength(run, 0.97)
     cells = run.states.get("cell", set())
     chains = run.states.get("chain", set())
